@@ -64,6 +64,14 @@ pub(crate) fn bbox_write_z_range_to<PointType: HasZ, W: Write>(
     Ok(())
 }
 
+/// Counts come from the file and are not necessarily backed by data:
+/// never reserve room for more than this many items before reading them
+const MAX_PREALLOCATED_ITEMS: usize = 1024;
+
+pub(crate) fn capacity_for(count: usize) -> usize {
+    count.min(MAX_PREALLOCATED_ITEMS)
+}
+
 /// Reads a number of points / parts: these are stored as signed integers
 /// but a negative count is never valid
 pub(crate) fn read_count<T: Read>(source: &mut T) -> std::io::Result<i32> {
@@ -86,7 +94,7 @@ where
     PointType: HasMutXY + Default,
     T: Read,
 {
-    let mut points = Vec::<PointType>::with_capacity(num_points as usize);
+    let mut points = Vec::<PointType>::with_capacity(capacity_for(num_points as usize));
     for _ in 0..num_points {
         let mut p = PointType::default();
         *p.x_mut() = source.read_f64::<LittleEndian>()?;
@@ -120,7 +128,7 @@ pub(crate) fn read_parts<T: Read>(
     source: &mut T,
     num_parts: i32,
 ) -> Result<Vec<i32>, std::io::Error> {
-    let mut parts = Vec::<i32>::with_capacity(num_parts as usize);
+    let mut parts = Vec::<i32>::with_capacity(capacity_for(num_parts as usize));
     for _ in 0..num_parts {
         parts.push(source.read_i32::<LittleEndian>()?);
     }
@@ -228,7 +236,7 @@ impl<'a, PointType: Default + HasMutXY, R: Read> MultiPartShapeReader<'a, PointT
                 "invalid start of part index",
             ));
         }
-        let parts = Vec::<Vec<PointType>>::with_capacity(num_parts as usize);
+        let parts = Vec::<Vec<PointType>>::with_capacity(capacity_for(num_parts as usize));
         Ok(Self {
             num_points,
             num_parts,
